@@ -6,6 +6,7 @@
    (commits e50ee06, fc57e39, ee5faa2), the constructor repair cc4d99c and the proposed c16_group_setting_lsdk, [orig_cfg] = the tree before them.  Theorems quantified over [c] hold for
    both; the [_refuted] theorems about [orig_cfg] document the original defects F-C16-1/2/3. *)
 From PsdV Require Import Base.Prelude Attrs.Model Attrs.Proofs.
+From PsdV Require Attrs.Persist.
 
 (* ---------------------------------------------------------------- 1. the getter shows the value at once *)
 (* get c a (set a v s) = v, for every attribute, kind, value and configuration, under the exact guard *)
@@ -217,8 +218,10 @@ Theorem history_pixels_kind : forall c l s,
 Proof. intros. split; [apply Proofs.run_sets_pixels|apply Proofs.run_sets_kind]. Qed.
 Print Assumptions history_pixels_kind.
 
-(* ---------------------------------------------------------------- 6. save + open *)
-(* The statements are relative to an abstract [save_open] and the ASSUMPTION that a layer whose fields fit their
+(* ---------------------------------------------------------------- 6. save + open, abstract form *)
+(* Section 7 DISCHARGES the assumption below against the byte-level format model; the abstract form is kept because
+   it is what the harness tests directly on the implementation (real save + open, independent of the format model).
+   The statements are relative to an abstract [save_open] and the ASSUMPTION that a layer whose fields fit their
    wire formats comes back as [stored] describes (record fields verbatim; 'luni' through UTF-16; 'lsct' through
    SectionDividerSetting.write/read).  The harness tests the assumption on every generated case by a real
    PSDImage.save + PSDImage.open (correspondence stream "history", operation OReopen). *)
@@ -312,3 +315,73 @@ Example history_persist_hyp :
   persist_get_guard fixed_cfg AName (run_sets fixed_cfg l ex_pixel) = true /\
   lastval KPixel AOpacity l (VInt 255) = VInt 255 /\ lastval KPixel ALock l VNone = VInt 5.
 Proof. repeat split. Qed.
+
+
+(* ---------------------------------------------------------------- 7. save + open on BYTES: the assumption discharged *)
+(* [Persist.save_open_bytes e s] = abstract (LayerRecord.read (LayerRecord.write (record of s in environment e))):
+   the layer's fields in the byte-level record of Psd/Model.v, its 'luni' / 'lsct' / 'lsdk' / 'lspf' / 'iOpa' blocks as
+   typed payloads of Psd/Leaf.v, the str <-> UTF-16 step of Strings/Model.v; the environment [e] is everything else a
+   real record carries (channel infos, mask, blending ranges, every other tagged block), arbitrary but well formed.
+   [Persist.sound e s] = invariants of the Python objects (enum members, byte fields, flag bits, names are str of at
+   most 2^24 characters) + the environment writes and stays below 2 GiB.  Composition of C01.layer_record_roundtrip
+   (Psd.Proofs.record_rt), Psd.LeafProofs.leaf_rt, Strings.Proofs.join_units_utf16, Strings.CodecProofs.macroman_law. *)
+Theorem stored_roundtrip : forall e s,
+  Persist.sound e s -> writable s = true -> Persist.save_open_bytes e s = AOk (stored s).
+Proof. exact Persist.stored_roundtrip. Qed.
+Print Assumptions stored_roundtrip.
+
+(* the byte-level save + open succeeds exactly on writable layers: the model's [reopen] IS the byte-level function *)
+Theorem save_open_bytes_is_reopen : forall e s,
+  Persist.sound e s -> (exists s', Persist.save_open_bytes e s = AOk s') <-> writable s = true.
+Proof. exact Persist.save_open_bytes_is_reopen. Qed.
+Print Assumptions save_open_bytes_is_reopen.
+
+Definition ex_env : Persist.env :=
+  Persist.mkEnv 1 [Psd.Model.mkCI (-1) 2; Psd.Model.mkCI 0 2] None (Psd.Model.mkBR None None)
+    [Psd.Model.mkTB 943868237 1819896164 [0; 0; 0; 7]].     (* an 'lyid' block *)
+Example sound_hyp : Persist.sound ex_env ex_group_content /\ Persist.sound ex_env ex_fill /\ writable ex_fill = true.
+Proof.
+  assert (E : Persist.env_fits ex_env).
+  { split; [reflexivity|]. exists 12, 4, 4, 16.
+    repeat split; try (eexists; eexists; split; [reflexivity|split; discriminate]). }
+  split; [|split; [|reflexivity]]; (split; [reflexivity|]; split; [exact E|]; split; [reflexivity|]; split; [reflexivity|repeat constructor]).
+Qed.
+
+Theorem persist_get_bytes : forall e c a s,
+  Persist.sound e s -> writable s = true -> persist_get_guard c a s = true ->
+  exists s', Persist.save_open_bytes e s = AOk s' /\ get c a s' = get c a s.
+Proof. exact Persist.persist_get_bytes. Qed.
+Print Assumptions persist_get_bytes.
+
+Theorem persist_set_bytes : forall e c a v s s1,
+  Persist.sound e s -> Persist.value_text_ok a v ->
+  set c a v s = AOk s1 -> get_set_guard c a v s = true -> persist_set_guard c a v s = true ->
+  writable s1 = true ->
+  exists s2, Persist.save_open_bytes e s1 = AOk s2 /\ get c a s2 = v.
+Proof. exact Persist.persist_set_bytes. Qed.
+Print Assumptions persist_set_bytes.
+
+Theorem persist_rest_bytes : forall e s,
+  Persist.sound e s -> writable s = true ->
+  exists s', Persist.save_open_bytes e s = AOk s' /\ l_kind s' = l_kind s /\ l_pixels s' = l_pixels s /\
+    get_width s' = get_width s /\ get_height s' = get_height s /\ l_iopa s' = l_iopa s /\
+    l_tp s' = l_tp s /\ l_fbits s' = l_fbits s.
+Proof. exact Persist.persist_rest_bytes. Qed.
+Print Assumptions persist_rest_bytes.
+
+(* soundness is an invariant: the constructors establish it, every setter keeps it *)
+Theorem sound_set : forall e c a v s s',
+  set c a v s = AOk s' -> Persist.value_text_ok a v -> Persist.sound e s -> Persist.sound e s'.
+Proof. exact Persist.sound_set. Qed.
+Print Assumptions sound_set.
+
+(* the whole property on bytes: any sequence of edits on a sound layer, then save + open *)
+Theorem history_persist_bytes : forall e a l s,
+  Persist.sound e s -> Forall (fun av => Persist.value_text_ok (fst av) (snd av)) l ->
+  divider_ok fixed_cfg s = true -> divider_signed fixed_cfg s = true -> derived_pos (l_kind s) a = false ->
+  writable (run_sets fixed_cfg l s) = true ->
+  (a = AName -> persist_get_guard fixed_cfg AName (run_sets fixed_cfg l s) = true) ->
+  exists s', Persist.save_open_bytes e (run_sets fixed_cfg l s) = AOk s' /\
+             get fixed_cfg a s' = lastval (l_kind s) a l (get fixed_cfg a s) /\ l_pixels s' = l_pixels s.
+Proof. exact Persist.history_persist_bytes. Qed.
+Print Assumptions history_persist_bytes.
